@@ -15,6 +15,7 @@ from tqdm import tqdm
 from accelforge._accelerated_imports import numpy as np
 
 from accelforge.util._mathfuncs import NUMPY_FLOAT_TYPE
+from accelforge.util import _verif
 
 __all__ = [
     "set_n_parallel_jobs",
@@ -182,6 +183,14 @@ def parallel(
     pbar = tqdm(total=total_jobs, desc=pbar, leave=True) if pbar else None
 
     def yield_results():
+        if _verif.schedule_active():
+            for result in _verif.scheduled(jobs, args.get("return_as") == "generator_unordered"):
+                if pbar:
+                    pbar.update(1)
+                yield result
+            if pbar:
+                pbar.close()
+            return
         for result in Parallel(n_jobs=n_jobs, **args)(jobs):
             if pbar:
                 pbar.update(1)
